@@ -17,7 +17,7 @@ func (c *FnCtx) guard() string {
 
 // safety obligation (C08 sweep): recorded only when the sweep is on; always assumed afterwards.
 func (c *FnCtx) safety(kind, goal string, pos token.Pos, detail string) {
-	if c.opts != nil && c.opts.noSafety {
+	if (c.opts != nil && c.opts.noSafety) || (c.con != nil && c.con.Flags["nosafety"]) {
 		c.assumeAt(c.guard(), goal)
 		return
 	}
@@ -608,6 +608,21 @@ func (c *FnCtx) instrSlice(x *ssa.Slice) {
 		c.safety("slice", and(le("0", lo), le(lo, hi), le(hi, app("slen", s))), x.Pos(), "string slice bounds out of range")
 		c.setVal(x, app("ssub", s, lo, hi))
 	case *types.Slice, *types.Pointer:
+		if pa, ok := c.addrs[x.X]; ok {
+			if _, hasTerm := c.vals[x.X]; !hasTerm {
+				// slicing an array that lives inside an object (e.g. env.args[:n]): the slice aliases the
+				// field. Model: a fresh array holding a copy; the field itself becomes volatile (every
+				// later read of it yields an arbitrary value), so no stale value is ever used.
+				at := types.Unalias(types.Unalias(x.X.Type()).Underlying().(*types.Pointer).Elem()).Underlying().(*types.Array)
+				hn, hs := c.elemHeap(at.Elem())
+				r := c.newRef()
+				h := c.heapGet(hn, hs)
+				c.heapSet(hn, hs, sto(h, r, c.load(pa)))
+				n := intLit(at.Len())
+				c.vals[x.X] = app("mk-slice", r, "0", n, n)
+				c.volatile[pa.rootHeap()] = true
+			}
+		}
 		s := c.term(x.X)
 		_ = tt
 		if x.High != nil {
@@ -697,11 +712,7 @@ func (c *FnCtx) instrConvert(x *ssa.Convert) {
 		hn, hs := c.elemHeap(st.Elem())
 		h := c.heapGet(hn, hs)
 		if basicInfo(st.Elem())&types.IsInteger != 0 && wrapFn(st.Elem()) == "wrapu8" {
-			c.setVal(x, app("str_of_bytes", sel(h, app("s-arr", a)), app("s-off", a), app("s-len", a)))
-			n := c.vals[x]
-			c.assume(eq(app("slen", n), app("s-len", a)))
-			k := c.fresh("k")
-			c.assume(forall([][2]string{{k, "Int"}}, implies(and(le("0", k), lt(k, app("s-len", a))), eq(app("sat", n, k), app("bclamp", sel2(h, app("s-arr", a), add(app("s-off", a), k))))), app("sat", n, k)))
+			c.setVal(x, c.strOfBytes(sel(h, app("s-arr", a)), app("s-off", a), app("s-len", a)))
 		} else {
 			c.declareFun("str_of_runes", []string{"(Array Int Int)", "Int", "Int"}, "Str")
 			c.setVal(x, app("str_of_runes", sel(h, app("s-arr", a)), app("s-off", a), app("s-len", a)))
@@ -878,7 +889,7 @@ func (c *FnCtx) instrPanic(x *ssa.Panic) {
 	if c.con != nil && c.con.Panics {
 		return
 	}
-	if c.opts != nil && c.opts.noSafety {
+	if (c.opts != nil && c.opts.noSafety) || (c.con != nil && c.con.Flags["nosafety"]) {
 		return
 	}
 	props := []string{"C08"}
